@@ -257,11 +257,13 @@ func (t *IncludeNode) All() []Node {
 type EmbedNode struct {
 	*IncludeNode
 	Blocks map[string]*BlockNode // Blocks inside the embed body.
+
+	top []*BlockNode // The blocks that stand directly in the embed body, in source order.
 }
 
 // NewEmbedNode returns a EmbedNode.
 func NewEmbedNode(tmpl Expr, with Expr, only bool, blocks map[string]*BlockNode, pos Pos) *EmbedNode {
-	return &EmbedNode{NewIncludeNode(tmpl, with, only, pos), blocks}
+	return &EmbedNode{NewIncludeNode(tmpl, with, only, pos), blocks, nil}
 }
 
 // String returns a string representation of an EmbedNode.
@@ -270,8 +272,19 @@ func (t *EmbedNode) String() string {
 }
 
 // All returns all the child Nodes in a EmbedNode.
+//
+// Blocks also holds the blocks nested in other blocks of the embed body. Those
+// are children of the block around them, not of the EmbedNode: handing them
+// out here as well made every traversal visit them twice, and twice as often
+// again with every further level of embeds inside them.
 func (t *EmbedNode) All() []Node {
 	r := t.IncludeNode.All()
+	if t.top != nil {
+		for _, blk := range t.top {
+			r = append(r, blk)
+		}
+		return r
+	}
 	for _, blk := range t.Blocks {
 		r = append(r, blk)
 	}
